@@ -37,7 +37,7 @@ CHECKS = {
    note="Trusted: the construction of each known-invalid corruption; documented categories = README anchors plus the two documented Gambit messages. Fault kinds and truncation offsets are enumerated; the files they are applied to are sampled.", ref="6 C17"),
  "C05": dict(level="exploration", technique="deterministic simulation with fault injection: seeded search over configurations x schedules with injected pool-build failures, core-count faults, oversubscription and starved workers; deadlock / step-budget / panic detection",
    text="Every run executes one seeded point of the full configuration product (methods, RegretParams::new tuples incl. +-inf, +-1e3 and log-uniform exponents in +-[0.1, 1000], presets, None, T incl. 0 and u64::MAX, thresholds incl. negative/NaN/inf, num_threads incl. 0 and the overflow boundary, payoff magnitudes 1e-300..1e250, chance weights scaled by 1e-300..8e307) inside one simulated execution. Injected faults: thread-pool construction failure, too many threads, unknown / overridden core count, starved worker (PCT schedule), fewer tasks than workers, stub coins. Oracle: no panic in any task, no deadlock, step budget respected, Ok / ThreadOverflow / ThreadSpawnError exactly where expected (1 thread never errors), well-formed profile and bounds on Ok, and after an injected failure the retried call succeeds and equals a fault-free run. Contract-edge trees (own action forgotten; one action here, several there) are fed to from_root as well. Fault kinds are enumerated; schedules and inputs are sampled.",
-   note="Trusted: stand-in fails pool builds above 4096 threads as the real pool does in this sandbox; allocation failure not modelled; hang = step budget on decision-node visits + shuttle deadlock detector + a 600 s wall-clock watchdog for loops that reach neither (never a timing oracle).", ref="6 C05"),
+   note="Trusted: stand-in fails pool builds above 4096 threads as the real pool does in this sandbox; allocation failure not modelled; hang = step budget on decision-node visits + shuttle deadlock detector + a 180 s wall-clock watchdog for loops that reach neither (never a timing oracle).", ref="6 C05"),
  "C06": dict(level="exploration", technique="deterministic simulation: seeded schedule search (shuttle, own recording scheduler) over a rayon stand-in; K-thread vs 1-thread result",
    text="Seeded search over thread schedules: every run executes the real solver sources with 1 thread and with K simulated threads inside one simulated execution whose scheduler (uniform random / PCT priorities / non-preemptive, chosen per run) decides every interleaving at every mutex, atomic float update, spawn and join, and whose rayon stand-in draws worker count and item order from the same recorded stream. Strategies and bounds must agree within 1e-7 / 1e-9*D*(N+1) on well-conditioned cases. Sampling of schedules and games: evidence, not proof.",
    note="Trusted: the rayon stand-in's over-approximation of rayon's contract (DESIGN 2.2, cross-checked against the real pool in 8.3), shuttle's sequentially consistent model of atomics, the conditioning guard (DESIGN 5.3).", ref="6 C06"),
